@@ -19,6 +19,8 @@ type C06Plugin struct {
 	Idx  string `json:"idx"`
 	Mask uint32 `json:"mask"` // 0 = everything
 	Late bool   `json:"late"` // registers while traffic is running
+	// NoSync: the plugin has no Synchronize handler (the stub answers synchronization itself)
+	NoSync bool `json:"no_sync,omitempty"`
 }
 
 type C06Caller struct {
@@ -83,7 +85,7 @@ func c06Gen(rng *rand.Rand, conf string, idx int) any {
 				m |= 1 << uint(rng.Intn(13))
 			}
 		}
-		w.Plugins = append(w.Plugins, C06Plugin{Name: names[k], Idx: fmt.Sprintf("%02d", ix), Mask: m, Late: rng.Intn(3) == 0})
+		w.Plugins = append(w.Plugins, C06Plugin{Name: names[k], Idx: fmt.Sprintf("%02d", ix), Mask: m, Late: rng.Intn(3) == 0, NoSync: rng.Intn(4) == 0})
 	}
 	m := 1 + rng.Intn(4*deep(conf))
 	for c := 0; c < m; c++ {
@@ -151,6 +153,13 @@ func c06Run(t *testing.T, wl any, sc SchedCfg) *Result {
 				return &Reply{SleepMs: slow}
 			}
 			return nil
+		}
+		h.NoSyncHandler = map[string]bool{}
+		for _, pw := range w.Plugins {
+			if pw.NoSync {
+				h.NoSyncHandler[pw.Name] = true
+				res.Probe("C06.plugin-without-synchronize-handler")
+			}
 		}
 		var early, late []*Plug
 		for _, pw := range w.Plugins {
@@ -340,6 +349,9 @@ func c06Oracle(res *Result, w *C06W, h *H1, reqs []*c06Req, exitStep map[string]
 			}
 			ss, synced := syncStep[p.Name]
 			certInactive := !synced || rq.Ret <= ss
+			if p.NoSync {
+				certInactive = false // no handler tells when it was synchronized
+			}
 			c := cnt[p.Name]
 			if c > 1 {
 				res.Violate("C06.exactly-once", "request %s (%s): plugin %s invoked %d times", rq.ID, rq.Event, p.Name, c)
